@@ -265,6 +265,28 @@ func init() {
 	reg("(time.Time).UnixNano", "Time.UnixNano() = nanoseconds (A-TIME)", func(c *CallCtx) []Outcome {
 		return c.ret(TV{T: c.t(0), Ty: tInt64})
 	})
+	reg("(time.Duration).Nanoseconds", "Duration.Nanoseconds() = the int64 count itself", func(c *CallCtx) []Outcome {
+		return c.ret(TV{T: c.t(0), Ty: tInt64})
+	})
+	reg("(time.Duration).Microseconds", "Duration.Microseconds() = ns / 1e3 truncated toward zero", func(c *CallCtx) []Outcome {
+		t := c.t(0)
+		return c.ret(TV{T: ite(app(">=", t, "0"), app("div", t, "1000"), app("-", app("div", app("-", t), "1000"))), Ty: tInt64})
+	})
+	reg("(time.Duration).Milliseconds", "Duration.Milliseconds() = ns / 1e6 truncated toward zero", func(c *CallCtx) []Outcome {
+		t := c.t(0)
+		return c.ret(TV{T: ite(app(">=", t, "0"), app("div", t, "1000000"), app("-", app("div", app("-", t), "1000000"))), Ty: tInt64})
+	})
+	reg("(time.Time).Before", "Time.Before compares instants", func(c *CallCtx) []Outcome {
+		return c.ret(TV{T: app("<", c.t(0), c.t(1)), Ty: tBool})
+	})
+	reg("(time.Time).Equal", "Time.Equal compares instants", func(c *CallCtx) []Outcome {
+		return c.ret(TV{T: eq(c.t(0), c.t(1)), Ty: tBool})
+	})
+	reg("(time.Time).Sub", "Time.Sub(u) = t - u nanoseconds, saturated to the int64 Duration range", func(c *CallCtx) []Outcome {
+		d := app("-", c.t(0), c.t(1))
+		mx, mn := "9223372036854775807", "(- 9223372036854775808)"
+		return c.ret(TV{T: ite(app(">", d, mx), mx, ite(app("<", d, mn), mn, d)), Ty: c.resultType(0)})
+	})
 	reg("(time.Time).UTC", "UTC() denotes the same instant", func(c *CallCtx) []Outcome { return c.ret(c.args[0]) })
 	reg("time.Unix", "time.Unix(s,ns) = s*1e9+ns", func(c *CallCtx) []Outcome {
 		return c.ret(TV{T: app("+", app("*", c.t(0), "1000000000"), c.t(1)), Ty: c.resultType(0)})
